@@ -280,6 +280,65 @@ func runC03(e *core.Env) error {
 			w.close()
 		}
 	}
+	// ---- pruning of old positions (PruneTask keeps the n newest per pair) next to reorgs that stay WITHIN
+	// the retained history: the unwind still finds the fork
+	for rep := 0; rep < e.N(4, 24) && !e.OverBudget(); rep++ {
+		rr := r.Fork()
+		chain := transferChain(3, uint64(1+rr.Intn(1000)))
+		w, err := newWorld(e, chain)
+		if err != nil {
+			return err
+		}
+		root := config.Root{Integrations: []config.Integration{transferIG("ig1", "t1", []string{"block_time"}, nil), txIG("ig2", "t2", []string{"tx_hash", "block_time"})}}
+		if err := w.setupRoot(&root); err != nil {
+			w.close()
+			return err
+		}
+		t1, err1 := w.addTask("t1", root.Integrations[0], "src1", 1, 0, 1+rr.Intn(2), 1)
+		t2, err2 := w.addTask("t2", root.Integrations[1], "src1", 1, 0, 1, 1)
+		if err1 != nil || err2 != nil {
+			w.close()
+			return fmt.Errorf("c03 prune: %v %v", err1, err2)
+		}
+		ts := []*wTask{t1, t2}
+		for i := 0; i < 6+rr.Intn(4) && !w.dead; i++ {
+			w.grow(1)
+			for _, t := range ts {
+				w.step(t, noFault)
+			}
+		}
+		keep := 3 + rr.Intn(4)
+		w.prune(keep)
+		// t2 has one position per block (batch 1): a reorg of depth <= keep-1 has its fork among the retained ones;
+		// t1 may have fewer positions than blocks, its fork is the newest position at or below the fork block
+		depth := 1 + rr.Intn(min(keep-1, 3))
+		w.reorg(depth, depth+rr.Intn(2))
+		w.grow(1)
+		if rr.Bool() {
+			w.prune(keep)
+		}
+		for k := 0; k < 60 && !w.dead; k++ {
+			quiet := true
+			for _, t := range ts {
+				if out := w.step(t, noFault); !(out == "nothing-new" && w.taskTop(t) == w.head()) {
+					quiet = false
+				}
+			}
+			if quiet {
+				break
+			}
+		}
+		var oracles []string
+		for _, t := range ts {
+			oracles = append(oracles, w.projOracle(t, 0))
+			if w.taskTop(t) != w.head() {
+				e.Add(core.Case{Impl: fmt.Sprintf("after pruning to %d positions and a reorg of depth %d: %s stuck at %d of %d", keep, depth, t.ig, w.taskTop(t), w.head()), Spec: "converged", Key: fmt.Sprintf("c03-prune-stuck %d %s", rep, t.ig)})
+			}
+		}
+		op, impl := w.caseOp()
+		e.Add(core.Case{Op: op, Impl: impl, Oracles: oracles, Nontrivial: true, Key: fmt.Sprintf("c03-prune %d %d", rep, e.Seed), Tags: []string{"prune-then-reorg-within-retained-history", fmt.Sprintf("keep=%d", keep), fmt.Sprintf("depth=%d", depth)}})
+		w.close()
+	}
 	// ---- a LARGE batch size while following the head (one recorded position per block), then a reorg
 	// deeper than a few positions: the unwind is bounded by the number of positions (1000), not by blocks
 	for rep := 0; rep < e.N(3, 12) && !e.OverBudget(); rep++ {
